@@ -229,7 +229,7 @@ fn case(c: &mut Case<'_>) -> CaseResult {
     let max_file = if c.tier == crate::engine::Tier::Quick { 20_000 } else { 262_144 };
     let mut b = gen_form(c, max_file);
     // one deviation: policy violation, expiry, or tampering
-    let deviations = ["none", "none", "none", "expired", "violate-eq", "violate-starts-with", "violate-length", "violate-bucket", "tamper-policy", "tamper-signature", "signature-length", "other-key", "tamper-credential-date", "tamper-date", "algorithm", "unknown-key"];
+    let deviations = ["none", "none", "none", "expired", "violate-eq", "violate-starts-with", "violate-length", "violate-bucket", "tamper-policy", "tamper-signature", "signature-length", "body-cut-inside-file", "body-error-inside-file", "other-key", "tamper-credential-date", "tamper-date", "algorithm", "unknown-key"];
     let mut dev = *c.t.pick(&deviations);
     let now = now_unix();
     match dev {
@@ -322,13 +322,32 @@ fn case(c: &mut Case<'_>) -> CaseResult {
     if dev.starts_with("violate") && violated.is_none() {
         dev = "none";
     }
-    let want_accept = sig_valid && violated.is_none();
+    let mut want_accept = sig_valid && violated.is_none();
     let req = form_request(&b.bucket, &form);
     // one transport split somewhere after the first delimiter line (framing as such is C09's subject, including its
     // finding about splits inside that line)
     let first_line = req.body.windows(2).skip(2).position(|w| w == b"\r\n").map_or(req.body.len(), |p| p + 4);
     let cuts: Vec<usize> = if c.t.chance(96) && first_line < req.body.len() { vec![first_line + c.t.below(req.body.len() - first_line + 1)] } else { vec![] };
-    let steps = if cuts.is_empty() { None } else { Some(split_frames(&req.body, &cuts)) };
+    let mut steps = if cuts.is_empty() { None } else { Some(split_frames(&req.body, &cuts)) };
+    let mut body_fault = false;
+    if matches!(dev, "body-cut-inside-file" | "body-error-inside-file") {
+        // the body stops (or the transport fails) somewhere inside the file part: whatever arrived is not the file
+        let start = req.body.windows(form.file.len().max(1)).position(|w| w == form.file.as_slice()).unwrap_or(0);
+        if form.file.len() >= 2 && start > 0 {
+            let at = start + 1 + c.t.below(form.file.len() - 1);
+            let mut st = vec![Step::Data(bytes::Bytes::copy_from_slice(&req.body[..at]))];
+            if dev == "body-error-inside-file" {
+                st.push(Step::Error("connection reset".into()));
+            }
+            steps = Some(st);
+            body_fault = true;
+        } else {
+            dev = "none";
+        }
+    }
+    if body_fault {
+        want_accept = false;
+    }
     c.label(format!("dev:{dev}"));
     c.label(format!("file:{}", b.file_class));
     c.label(if want_accept { "ref:accept" } else { "ref:reject" });
